@@ -61,6 +61,14 @@ Proof.
       apply split_affs_none, Hi.
 Qed.
 
+(** piece 0 keeps the parent's affine as it is *)
+Lemma split_first_affine im dim ps (d : img) :
+  split_img_at im dim = Ok ps -> 0 < length ps -> iaff (nth 0 ps d) = iaff im.
+Proof.
+  intros H Hl. destruct (split_img_at_spec im dim ps H) as (_ & _ & Hnth). rewrite (Hnth 0 d Hl). cbn [iaff].
+  destruct (length ps) as [|n]; [lia|]. reflexivity.
+Qed.
+
 (** default split dimension: the last axis; for a 3-D image the header's slice dim *)
 Lemma resolve_split_dim_spec im odim dim :
   resolve_split_dim im odim = Ok dim ->
